@@ -114,6 +114,16 @@ func GenPackage(t *rapid.T, o GenOpts, nfiles, perFile int) *PackageSpec {
 		case 0:
 			f.CffAlias = "c"
 		}
+		switch uniform(t, "layout", 8) {
+		case 0:
+			f.Layout = 1
+		case 1:
+			f.Layout = 2
+		case 2:
+			f.Layout = 4
+		case 3:
+			f.Layout = 1 + uniform(t, "layoutbits", 7)
+		}
 		switch uniform(t, "oddimp", 8) {
 		case 0:
 			f.OddImp = 1
